@@ -4,13 +4,9 @@ From Verif Require Import Py PyExt PyReduce Shape COO GCXS Judge SArr NpReduce R
 Import ListNotations.
 Open Scope Z_scope.
 
-Definition wr_of (w : option (Z * bool)) : Z -> Z :=
-  match w with None => fun z => z | Some (b, s) => wrap_int b s end.
-
 (* one API case: ufunc code, input (SCoo canonical literal | SGcxs as the implementation built it),
-   axis argument, keepdims, dtype (bits, signed) of the row numbers handed to _grouped_reduce when
-   narrower than intp, what the implementation returned, what NumPy returned on the dense input *)
-Definition rcase := (Z * sarr * axis_arg * bool * option (Z * bool) * sarr * sarr)%type.
+   axis argument, keepdims, what the implementation returned, what NumPy returned on the dense input *)
+Definition rcase := (Z * sarr * axis_arg * bool * sarr * sarr)%type.
 
 Definition in_coo (a : sarr) : option (coo Z) :=
   match a with
@@ -46,9 +42,9 @@ Definition model_matches_spec (r : res (rres Z)) (s : res (dense Z)) : bool :=
 Definition admissible_z (m f : Z) : bool :=
   admissible Z Z.eqb (op_z m) (ufunc_cast m) (sup_z m) f.
 
-(* 0 inside the proved domain | 3 reduced_extents_positive | 4 idx_dtype_holds_nnz
+(* 0 inside the proved domain | 3 reduced_extents_positive
    | 5 gcxs_axes_not_permuted_full | 11 gcxs_axes_nonempty | 12 gcxs_axes_distinct *)
-Definition clause_of (m : Z) (x : coo Z) (isg : bool) (ax : axis_arg) (w : option (Z * bool)) : Z :=
+Definition clause_of (m : Z) (x : coo Z) (isg : bool) (ax : axis_arg) : Z :=
   let sh := c_shape x in
   let ndim := zlen sh in
   match norm_axes ndim ax with
@@ -59,34 +55,33 @@ Definition clause_of (m : Z) (x : coo Z) (isg : bool) (ax : axis_arg) (w : optio
     else if isg && negb (gcxs_axes_distinct nax) then 12
     else if isg && negb (gcxs_axes_not_permuted_full ndim nax) then 5
     else if negb (reduced_extents_positive (is_none (sup_z m)) sh axes) then 3
-    else if negb isg && negb (idx_dtype_holds_nnz (wr_of w) (zlen (c_coords x))) then 4
     else 0
   end.
 
 (* 0 agree
    1 in the domain: implementation = Spec but <> the model's representation (model unfaithful)
    2 in the domain: implementation <> Spec                        (a failing input)
-   3/4/5/11/12 outside the domain (named clause): implementation <> Spec (a failing input of that class)
+   3/5/11/12 outside the domain (named clause): implementation <> Spec (a failing input of that class)
    6 in the domain: result not in canonical form
    7 the model disagrees with the Spec inside the domain          (contradicts reduce_den: harness/model bug)
    8 inadmissible reduction: the implementation did not raise ValueError
    9 malformed input literal
    10 the Spec disagrees with NumPy on the dense input            (Spec/NpReduce.v wrong) *)
 Definition judge_reduce (c : rcase) : Z :=
-  let '(m, inp, ax, keepdims, w, out, npout) := c in
+  let '(m, inp, ax, keepdims, out, npout) := c in
   match in_coo inp with
   | None => 9
   | Some x =>
     let isg := match inp with SGcxs _ => true | _ => false end in
     let spec := np_reduce_dense Z (op_z m) (ufunc_cast m) (ufunc_ident m) ax keepdims (todense x) 0 in
-    let cl := clause_of m x isg ax w in
+    let cl := clause_of m x isg ax in
     if negb (out_matches_spec npout spec) then 10
     else if negb (admissible_z m (c_fill x)) then
       match out with SExc ValueError => 0 | _ => 8 end
     else if cl =? 0 then
       let model := match inp with
                    | SGcxs g => gcxs_reduce_z m ax keepdims g
-                   | _ => reduce_coo_z m (wr_of w) ax keepdims x
+                   | _ => reduce_coo_z m ax keepdims x
                    end in
       if out_matches_model out model then
         if model_matches_spec model spec then (if sarr_wfb out && sarr_prunedb out then 0 else 6) else 7
@@ -97,7 +92,7 @@ Definition judge_reduce (c : rcase) : Z :=
 (* branch tag of a case, for the coverage histogram: 100*clause + 10*path + kind
    path 0 coo | 1 gcxs flatten path | 2 gcxs re-compress path ; kind 0 plain | 1 super *)
 Definition tag_reduce (c : rcase) : Z :=
-  let '(m, inp, ax, keepdims, w, out, npout) := c in
+  let '(m, inp, ax, keepdims, out, npout) := c in
   match in_coo inp with
   | None => -1
   | Some x =>
@@ -110,17 +105,17 @@ Definition tag_reduce (c : rcase) : Z :=
                   | Raise _ => 2
                   end
                 else 0 in
-    100 * clause_of m x isg ax w + 10 * path + (if is_none (sup_z m) then 0 else 1)
+    100 * clause_of m x isg ax + 10 * path + (if is_none (sup_z m) then 0 else 1)
   end.
 
 (* kernel level: _grouped_reduce(data, groups, method) on raw arrays.
-   (dtype of groups, groups, data, ufunc code, Some (inv_idx, counts, result) | None = IndexError) *)
-Definition kcase := (option (Z * bool) * list Z * list Z * Z * option (list Z * list Z * list Z))%type.
+   (groups, data, ufunc code, Some (inv_idx, counts, result) | None = IndexError) *)
+Definition kcase := (list Z * list Z * Z * option (list Z * list Z * list Z))%type.
 
 (* 0 agree | 1 _calc_counts_invidx differs | 2 reduceat differs | 3 exception behaviour differs *)
 Definition judge_kernel (c : kcase) : Z :=
-  let '(w, groups, data, m, out) := c in
-  match grouped_reduce Z (op_z m) (ufunc_cast m) (wr_of w) 0 data groups, out with
+  let '(groups, data, m, out) := c in
+  match grouped_reduce Z (op_z m) (ufunc_cast m) 0 data groups, out with
   | Ok (r, inv, cnt), Some (inv', cnt', r') =>
     if zl_eqb inv inv' && zl_eqb cnt cnt' then (if zl_eqb r r' then 0 else 2) else 1
   | Raise IndexError, None => 0
